@@ -28,7 +28,10 @@ Proof.
   | |- context [plsq ?X ?Y ?N ?D] =>
       replace (plsq X Y N D) with (map (@polyval R ROps ce) N) by (rewrite <- Hplsq; f_equal; list_eq)
   end.
-  rewrite map_map, zipw_map_l. reflexivity.
+  (* both sides: one zipw over (gradient E, gradient V); the pointwise functions agree as real expressions
+     (e.g. -(x / y) = (-x) / y, no side condition) *)
+  rewrite ?map_map. repeat rewrite ?map_zipw, ?zipw_map_l, ?zipw_map_r.
+  apply zipw_ext. intros x y. first [reflexivity | rops; unfold Rdiv; ring].
 Qed.
 
 Corollary tie_static_p_model : forall polyfit g plsq tol (ce qvols ens varr r : list R),
